@@ -189,8 +189,8 @@ def stepLineD (ds : DS) (line : String) : DS :=
     match nats? rest with
     | some [ph, pod, nr, rt] => { ds with arb := some ⟨ph, 0, nb pod, nb nr, nb rt, none, false⟩ }
     | _ => bad
-  -- the SHIPPED Create handler adds every job (`arbStep false`); once the handler skips finished jobs, make this `true`
-  | ["arbadd"] => match ds.arb with | some s => { ds with arb := some (arbStep false s .add) } | none => bad
+  -- the Create handler skips Succeeded / Failed / Aborted jobs (fix 2a5d178; tied by tie_create_handler_guard): guarded add
+  | ["arbadd"] => match ds.arb with | some s => { ds with arb := some (arbStep true s .add) } | none => bad
   | ["arbset", p] => match ds.arb, p.toNat? with | some s, some p => { ds with arb := some (arbSet s p) } | _, _ => bad
   | ["arbpod", b] => match ds.arb, b.toNat? with | some s, some b => { ds with arb := some { s with pod := nb b } } | _, _ => bad
   | ["arbround"] =>
